@@ -47,3 +47,11 @@ claim("C12", "exhaustive enumeration of {Put, Discard+reopen, Finalize+reopen} s
   "Every interleaving of puts and interruptions up to the depth bound x 7 configurations x 2 front-ends ends byte-identical to the uninterrupted session; every distinct intermediate file image is reopened with every single-field mismatch and must be refused untouched. Exhaustive within the bound.",
   "Trusted: the uninterrupted session as reference. Interruptions are at operation boundaries only (byte-level cuts are C06).",
   "DESIGN.md 5/C12")
+claim("C06", "exhaustive crash-image enumeration: real write order recorded through the build-tag write seam + file diffing, every prefix x every torn length of the next write reopened on the real Resume code; second-generation sessions included",
+  "For every session of the bound x 7 configurations x 2 front-ends (and sessions resuming complete or crashed images of a first one) every crash image (each write boundary and each byte offset inside each write; 5 offsets for data writes > 64 bytes in quick, all in thorough) is reopened: refusal must not destroy acknowledged blocks; success must expose exactly intact put blocks and continue to a strictly well-formed archive.",
+  "Crash model is the property's (prefix of issued writes, last one torn; no reordering since the library never syncs). One class of crash points is a recorded known finding (see KNOWN_FINDINGS.txt).",
+  "DESIGN.md 5/C06")
+claim("C16", "exhaustive single-fault (thorough: two-fault) enumeration over every write call and every short-write length of a fixed session on four front-ends, through the write seam / a faulty stream",
+  "One transient fault is injected at every write call of the session (plain error and every short length), with and without retrying the failed put; the faulted call must report the error, the failed block must not be reported stored, and whenever the continuation succeeds the archive must strictly decode to exactly the successfully put blocks.",
+  "Faults are transient; if later calls keep failing nothing is asserted (as the property states).",
+  "DESIGN.md 5/C16")
